@@ -57,6 +57,8 @@ def request_for(case):
     headers = []
     if rq.get("range") is not None:
         headers.append(["Range", rq["range"]])
+    if rq.get("if_range") is not None:
+        headers.append(["If-Range", rq["if_range"]])
     return gw.areq(method=rq.get("method", "GET"), path="/r", headers=headers)
 
 
@@ -216,6 +218,8 @@ def response_case(draw):
     rq = {"method": draw(st.sampled_from(["GET", "GET", "HEAD", "POST"]))}
     if recipe["kind"] == "file":
         rq["range"] = draw(st.sampled_from(gen.RANGE_HEADERS))
+        if draw(st.integers(0, 2)) == 0:
+            rq["if_range"] = draw(st.sampled_from(['"stale-etag"', "Wed, 21 Oct 2015 07:28:00 GMT", "garbage", ""]))
     return {"response": recipe, "request": rq}
 
 
